@@ -1,4 +1,5 @@
-(* SM2Facts (EC/SM2Curve.v) with associativity of the affine addition as the ONLY remaining premise:
+(* SM2Facts (EC/SM2Curve.v) PROVED, no premise ([SM2Facts_proved]); first with associativity of the affine addition as
+   the only premise ([SM2Facts_from_assoc]), then with associativity taken from SM2/ECAssoc.v:
      sm2_p_prime, sm2_n_prime   Pocklington certificates (Prime/SM2Primes.v)
      sm2_G_on_curve             by computation
      sm2_nG_infinity            [n]G = infinity by computation (one 256-bit double-and-add in vm_compute)
@@ -6,7 +7,7 @@
                                 (which need p prime and associativity): if [k]G = infinity for 0 < k < n, take
                                 u with u*k = 1 (mod n); then G = [u*k mod n]G = [u*k]G = [u]([k]G) = infinity. *)
 From Coq Require Import List ZArith Znumtheory Lia.
-From GmsmVerif Require Import EC.ECAffine EC.SM2Curve SM2.SM2GroupMin Prime.SM2Primes.
+From GmsmVerif Require Import EC.ECAffine EC.SM2Curve SM2.SM2GroupMin SM2.ECAssoc Prime.SM2Primes.
 Open Scope Z_scope.
 
 Definition sm2_add_assoc_statement : Prop :=
@@ -47,6 +48,16 @@ Proof.
   intros Ha. exact (mkSM2Facts sm2_p_is_prime sm2_n_is_prime Ha sm2_G_on_curve_holds sm2_nG_infinity_holds
                                 (sm2_kG_finite_holds Ha)).
 Qed.
+
+(* associativity itself is proved in SM2/ECAssoc.v under "prime sm2_p": no premise is left *)
+Lemma sm2_add_assoc_holds : sm2_add_assoc_statement.
+Proof. exact (sm2_add_assoc_proved sm2_p_is_prime). Qed.
+
+Theorem SM2Facts_proved : SM2Facts.
+Proof. exact (SM2Facts_from_assoc sm2_add_assoc_holds). Qed.
+
+Lemma Add_assoc_holds : Add_assoc. Proof. exact sm2_add_assoc_holds. Qed.
+Lemma G_multiples_finite_holds : G_multiples_finite. Proof. exact (sm2_kG_finite_holds sm2_add_assoc_holds). Qed.
 
 (* the separate premises of SM2/SM2GroupMin.v *)
 Lemma P_prime_holds : P_prime. Proof. exact sm2_p_is_prime. Qed.
